@@ -1186,6 +1186,7 @@ func runUnconfirmedNotClaimed(c *Ctx) {
 			return true
 		})
 		cleared, before := false, true
+		clearedObjs := map[types.Object]bool{}
 		for _, st := range sites {
 			finfo := st.f.Info()
 			clearPos := token.NoPos
@@ -1200,6 +1201,11 @@ func runUnconfirmedNotClaimed(c *Ctx) {
 				}
 				if reservationIndex(st.f, finfo, as, ix.Index) && reservationIndex(st.f, finfo, as, as.Rhs[0]) {
 					cleared, clearPos = true, as.Pos()
+					if st.f == flush {
+						clearedObjs[st.obj] = true
+					} else if marshalled != nil {
+						clearedObjs[marshalled] = true
+					}
 				}
 				return true
 			})
@@ -1219,6 +1225,66 @@ func runUnconfirmedNotClaimed(c *Ctx) {
 								before = false
 							}
 						}
+					}
+				}
+				return true
+			})
+		}
+		// (round 14) what is written is the copy that was cleared: every []byte taken from the bitmap (its Marshal() or its data field)
+		// that Flush hands to a Write is the object the clearing was applied to
+		if cleared {
+			derived := map[types.Object]token.Pos{}
+			fromBitmap := func(e ast.Expr) bool {
+				e = ast.Unparen(e)
+				if isMarshal(e) {
+					return true
+				}
+				if sel, ok := e.(*ast.SelectorExpr); ok && sel.Sel.Name == "data" {
+					if t := info.TypeOf(sel.X); t != nil && strings.HasSuffix(strings.TrimPrefix(t.String(), "*"), "transfer.Bitmap") {
+						return true
+					}
+				}
+				return false
+			}
+			InspectNoLits(flush.Body, func(m ast.Node) bool {
+				as, ok := m.(*ast.AssignStmt)
+				if !ok || len(as.Lhs) != len(as.Rhs) {
+					return true
+				}
+				for k, r := range as.Rhs {
+					if fromBitmap(r) {
+						if o := ObjOf(info, as.Lhs[k]); o != nil {
+							derived[o] = as.Pos()
+						}
+					}
+				}
+				return true
+			})
+			InspectNoLits(flush.Body, func(m ast.Node) bool {
+				call, ok := m.(*ast.CallExpr)
+				if !ok {
+					return true
+				}
+				name := ""
+				switch fn := ast.Unparen(call.Fun).(type) {
+				case *ast.SelectorExpr:
+					name = fn.Sel.Name
+				case *ast.Ident:
+					name = fn.Name
+				}
+				if name != "Write" && name != "WriteFile" && name != "Update" && name != "Checksum" && name != "ChecksumIEEE" {
+					return true
+				}
+				for _, a := range call.Args {
+					bad := fromBitmap(a)
+					if o := rootObj(info, a); o != nil {
+						if _, isDerived := derived[o]; isDerived && !clearedObjs[o] {
+							bad = true
+						}
+					}
+					if bad {
+						c.Bad("unconfirmed/flush/written-is-cleared", call.Pos(), "Sidecar.Flush hands "+types.ExprString(a)+" to "+name+": bytes taken from the bitmap that are not the copy the reservations were cleared in - the clearing is applied to another slice and what goes to disk still claims the chunks under comparison")
+						before = false
 					}
 				}
 				return true
